@@ -50,7 +50,7 @@ UNITS["C11"] = [
 UNITS["C06"] = [
     dict(test="TestC06_Trees", quick=dict(checks=1500, shards=4), thorough=dict(checks=40000, shards=16)),
     dict(test="TestC06_Terms", quick=dict(), thorough=dict()),
-    dict(test="TestC06_Wide", quick=dict(checks=400, shards=4), thorough=dict(checks=8000, shards=16)),
+    dict(test="TestC06_Wide", quick=dict(checks=400, shards=4), thorough=dict(checks=2000, shards=16)),
 ]
 
 UNITS["C07"] = [
